@@ -464,8 +464,9 @@ func (c *cinst) ExtraKey() uint64 { return explore.HashStrings(c.Digest()) }
 
 func (c *cinst) Check(res *mcrt.Result) []explore.Violation {
 	var vs []explore.Violation
-	if res.Deadlock || len(res.Panics) > 0 {
-		vs = append(vs, explore.Violation{Prop: "C13", Msg: fmt.Sprintf("deadlock=%v panics=%v", res.Deadlock, res.Panics)})
+	if res.Deadlock || len(res.Panics) > 0 || res.Capped {
+		vs = append(vs, explore.Violation{Prop: "C13", Msg: fmt.Sprintf("deadlock=%v capped=%v panics=%v", res.Deadlock, res.Capped, res.Panics)})
+		return vs
 	}
 	total := c.threads * c.k
 	adm := strings.Count(c.Digest(), "1")
